@@ -7,6 +7,7 @@ import (
 	"io"
 	"net"
 	"net/http"
+	"syscall"
 	"time"
 
 	"github.com/lesismal/nbio/nbhttp"
@@ -27,6 +28,9 @@ type httpCase struct {
 	Mutations  []string `json:"mutations,omitempty"`
 	CloseAfter int      `json:"close_after_segments"` // -1: only at the end
 	Respond    int      `json:"respond_bytes"`
+	// WriteFail: the connection refuses every write (a peer that has reset it): the response
+	// flush fails and the server takes its error path
+	WriteFail bool `json:"conn_writes_fail,omitempty"`
 }
 
 type httpKey struct {
@@ -37,13 +41,15 @@ type httpKey struct {
 type httpEngine struct{ e *nbhttp.Engine }
 
 type httpState struct {
-	c        *caseT
-	hc       *httpCase
-	scan     bool // the stream holds no poison byte: poison in delivered data proves a read after free
-	scanFill bool
-	requests int
-	retained []io.ReadCloser
-	bodyRead int
+	c            *caseT
+	hc           *httpCase
+	curLen       int64 // Content-Length of the request being handled (-1: unknown)
+	retainedLeft []int // unread bytes of each retained body (-1: unknown)
+	scan         bool  // the stream holds no poison byte: poison in delivered data proves a read after free
+	scanFill     bool
+	requests     int
+	retained     []io.ReadCloser
+	bodyRead     int
 }
 
 // checkConn is the net.Conn under every parser of the http and ws workloads.
@@ -54,6 +60,8 @@ type checkConn struct {
 	written int
 	closed  int
 	onClose func()
+	// failWrites: every write fails with a reset, as on a connection the peer has torn down
+	failWrites bool
 }
 
 type cAddr struct{}
@@ -68,6 +76,9 @@ func (c *checkConn) Write(b []byte) (int, error) {
 	}
 	if c.closed > 0 {
 		return 0, net.ErrClosed
+	}
+	if c.failWrites {
+		return 0, syscall.ECONNRESET
 	}
 	c.written += len(b)
 	if c.keep {
@@ -140,6 +151,7 @@ func (w *worker) consumeBody(body io.ReadCloser) {
 	if body == nil {
 		return
 	}
+	readN := 0
 	if br, ok := body.(*nbhttp.BodyReader); ok {
 		for _, b := range br.RawBodyBuffers() {
 			live := w.ga.CheckLive(b, "freed-buffer-visible-to-handler")
@@ -168,10 +180,16 @@ func (w *worker) consumeBody(body io.ReadCloser) {
 			}
 		}
 		st.bodyRead += n
+		readN = n
 	}
 	if hc.Retain && !hc.Client {
 		// RetainHTTPBody is a server-side option: the application keeps the body
 		st.retained = append(st.retained, body)
+		left := -1
+		if st.curLen >= 0 {
+			left = int(st.curLen) - readN // (what the handler read through Read; raw access consumes nothing)
+		}
+		st.retainedLeft = append(st.retainedLeft, left)
 	}
 }
 
@@ -184,6 +202,7 @@ func (w *worker) httpServe(rw http.ResponseWriter, req *http.Request) {
 	w.scanDelivered("request-line", []byte(req.Method))
 	w.scanDelivered("request-line", []byte(req.RequestURI))
 	w.scanHeader("header", req.Header)
+	st.curLen = req.ContentLength
 	w.consumeBody(req.Body)
 	w.scanHeader("trailer", req.Trailer)
 	if n := st.hc.Respond; n > 0 {
@@ -199,6 +218,7 @@ func (w *worker) httpClientHandler(res *http.Response, err error) {
 	st.requests++
 	w.scanDelivered("status-line", []byte(res.Status))
 	w.scanHeader("header", res.Header)
+	st.curLen = -1
 	w.consumeBody(res.Body)
 	w.scanHeader("trailer", res.Trailer)
 }
@@ -207,15 +227,32 @@ func (w *worker) httpClientHandler(res *http.Response, err error) {
 // keep (RetainHTTPBody): they must still be live, then they are closed.
 func (w *worker) releaseRetained() {
 	st := w.httpSt
-	for _, b := range st.retained {
+	for i, b := range st.retained {
 		if br, ok := b.(*nbhttp.BodyReader); ok {
 			for _, raw := range br.RawBodyBuffers() {
 				w.ga.CheckLive(raw, "retained-body-buffer-freed-by-nbio")
 			}
 		}
+		// the application reads what it had left unread: a body the library has taken back
+		// meanwhile (its buffers returned, the reader emptied) has nothing left to give
+		if want := st.retainedLeft[i]; want > 0 {
+			got := 0
+			buf := make([]byte, 4096)
+			for {
+				k, err := b.Read(buf)
+				got += k
+				if err != nil || k == 0 {
+					break
+				}
+			}
+			if got != want {
+				w.violate(st.c, "c11:retained-body-taken-back-before-the-application-closed-it", fmt.Sprintf("RetainHTTPBody: the application kept a request body with %d unread bytes; when it read them after the handler had returned, it got %d - the library had released the body (another owner while the application still holds it)", want, got))
+			}
+		}
 		_ = b.Close()
 	}
 	st.retained = nil
+	st.retainedLeft = nil
 }
 
 func (w *worker) runHTTP(c *caseT) {
@@ -232,7 +269,7 @@ func (w *worker) runHTTP(c *caseT) {
 	w.env.Log.Take()
 	w.env.TakeGuard()
 	eng := w.httpEngine(httpKey{hc.MaxBody, hc.Retain})
-	conn := &checkConn{ga: w.ga}
+	conn := &checkConn{ga: w.ga, failWrites: hc.WriteFail}
 	var proc nbhttp.Processor
 	if hc.Client {
 		proc = nbhttp.NewClientProcessor(&nbhttp.ClientConn{}, w.httpClientHandler)
@@ -316,6 +353,7 @@ func genHTTP(r *h.Run, i int) *caseT {
 		hc.CloseAfter = rng.Intn(len(hc.Cuts) + 1)
 	}
 	hc.Respond = []int{0, 5, 5, 2000, 2000, 66000}[rng.Intn(6)]
+	hc.WriteFail = !hc.Client && r.Rand("c11-http-writefail", i).Intn(6) == 0
 	hc.Stream = base64.StdEncoding.EncodeToString(stream)
 	hc.Literal = h.Hex(stream, 300)
 	role := "server"
